@@ -17,7 +17,9 @@ RULE = ("sim case = (timeout in {0,1,2,3,30,3600}, 1-3 workers, per-worker heart
         "deaths / TTIN; SIGCHLD schedule), family master-pause = (the master alone does not run for 0.6 x timeout .. 45 s, once or twice; "
         "one worker hangs after / before / during that), family bystanders = (2-4 workers, one hangs at any table position, the "
         "others healthy, nothing else); live case = (worker class, hang kind or healthy pattern incl. idle on a listener inherited in "
-        "blocking mode through LISTEN_FDS or fd://N, timeout); distinct = "
+        "blocking mode through LISTEN_FDS or fd://N, or healthy with slow clients: plain / TLS listener (handshake lazy or on connect), "
+        "clients silent for 3 x timeout inside the TLS handshake or the request head while others are served, clients pausing for "
+        "0.2 x timeout twice; timeout); distinct = "
         "sha1(case)+schedule; non-trivial = at least one hung worker or an adversarial healthy pattern")
 
 ABRT, KILL, TERM = int(signal.SIGABRT), int(signal.SIGKILL), int(signal.SIGTERM)
@@ -413,6 +415,11 @@ def main(tier, seed):
         "live part, inherited listener: the launcher process (which becomes the master) creates the listening socket in blocking mode "
         "and hands it over as descriptor 3 with LISTEN_FDS / LISTEN_PID, or as `--bind fd://7`; judged only when the master and every "
         "worker hold that very socket (inode) and a request is answered on it; idle = 4 x timeout, as in healthy-idle",
+        "live part, slow clients: a client that is silent in the middle of its TLS handshake or request head does not make the worker "
+        "that waits for it a hung worker where the worker class serves connections concurrently (gthread with the lazy handshake, "
+        "gevent, eventlet); one worker, so that the worker the silent clients are connected to is the one that has to answer the "
+        "short requests (6 s client timeout each, lag-guarded); sync and gthread + do_handshake_on_connect are judged only with "
+        "clients whose pauses add up to 0.4 x timeout",
     ]
     common.run_sharded(run, shards, timeout=900 if q else 7200)
     if live:
